@@ -118,7 +118,7 @@ the lists are those computed from the outline *before* any of these acts ran. -/
 theorem C07_transit_taken (i : Frid) (f : Fid) (needs : List NeedId) (far : Fid) (tracts : List Act)
     (s s1 s2 : St W) (h : needsHold sem needs s = true)
     (hc : checkEnter P sem lo (enters P i far s) (exits P i far s) s = .ok true)
-    (hx : exit P sem lo (exits P i far s) (runActs sem .transit f tracts s) = .ok s1)
+    (hx : exit P sem lo (exits P i far s) (runActs sem .transit f tracts (markLeft (truncated P i s) s)) = .ok s1)
     (he : enter P sem lo i (enters P i far s)
             (renter P sem (reexens P i far s) (rexit P sem (reexens P i far s) s1)) = .ok s2) :
     transit P sem lo i f needs far tracts s = .ok (true, activate P i far s2) := by
@@ -173,7 +173,7 @@ theorem C07_first_enabled_transition_taken (i : Frid) (pre post : List (Fid × P
 /-- non-vacuity: with no needs and an accepting entry check a transition is taken -/
 example (i : Frid) (f far : Fid) (s s1 s2 : St W)
     (hc : checkEnter P sem lo (enters P i far s) (exits P i far s) s = .ok true)
-    (hx : exit P sem lo (exits P i far s) (runActs sem .transit f [] s) = .ok s1)
+    (hx : exit P sem lo (exits P i far s) (runActs sem .transit f [] (markLeft (truncated P i s) s)) = .ok s1)
     (he : enter P sem lo i (enters P i far s)
             (renter P sem (reexens P i far s) (rexit P sem (reexens P i far s) s1)) = .ok s2) :
     firstMatch P sem lo i [(f, .transit [] far [])] s = .ok (true, activate P i far s2) := by
